@@ -3,8 +3,11 @@ package main
 // dom.go — E-dom: branch facts, edge-cut reachability, instruction dominance, must-pass-through.
 
 import (
+	"fmt"
 	"go/token"
 	"go/types"
+	"sort"
+	"strings"
 
 	"golang.org/x/tools/go/ssa"
 )
@@ -345,4 +348,216 @@ func mustPassFromBlock(b *ssa.BasicBlock, through func(ssa.Instruction) bool) (b
 		}
 	}
 	return true, nil
+}
+
+// ---------------------------------------------------------------------------------------------
+// nil-sensitive reachability: which blocks can be entered after instruction `start` when the values in `assume`
+// are nil (true) / non-nil (false).  Nil-ness is propagated through phis along the edge taken, branches on
+// `x == nil` / `x != nil` with known x are followed only on the feasible side, unknown ones fork and record what
+// the branch establishes about x.  A path-sensitive dataflow over the three-point lattice {nil, non-nil, unknown}
+// per error value; nothing is executed.
+
+type nilState map[ssa.Value]int8 // 1 nil, 2 non-nil
+
+func (s nilState) key() string {
+	var ks []string
+	for v, n := range s {
+		ks = append(ks, fmt.Sprintf("%s=%d", v.Name(), n))
+	}
+	sort.Strings(ks)
+	return strings.Join(ks, ",")
+}
+
+func (s nilState) of(v ssa.Value) int8 {
+	for {
+		if isNilConst(v) {
+			return 1
+		}
+		if n, ok := s[v]; ok {
+			return n
+		}
+		switch x := v.(type) {
+		case *ssa.ChangeInterface:
+			v = x.X
+			continue
+		case *ssa.MakeInterface, *ssa.Alloc, *ssa.MakeSlice, *ssa.MakeMap, *ssa.MakeClosure:
+			return 2
+		case *ssa.Call:
+			switch calleeName(&x.Call) {
+			case "fmt.Errorf", "errors.New":
+				return 2
+			}
+		}
+		return 0
+	}
+}
+
+func nilReach(start ssa.Instruction, assume map[ssa.Value]bool) map[*ssa.BasicBlock]bool {
+	return nilReachVisit(start, assume, nil)
+}
+
+// nilReachVisit: as nilReach; visit is called for every (block, state) pair explored.
+func nilReachVisit(start ssa.Instruction, assume map[ssa.Value]bool, visit func(b *ssa.BasicBlock, st nilState)) map[*ssa.BasicBlock]bool {
+	reached := map[*ssa.BasicBlock]bool{}
+	init := nilState{}
+	for v, isNil := range assume {
+		if isNil {
+			init[v] = 1
+		} else {
+			init[v] = 2
+		}
+	}
+	type item struct {
+		blk *ssa.BasicBlock
+		st  nilState
+	}
+	seen := map[string]bool{}
+	var work []item
+	enter := func(succ, pred *ssa.BasicBlock, st nilState) {
+		ns := nilState{}
+		for k, v := range st {
+			ns[k] = v
+		}
+		idx := -1
+		for i, p := range succ.Preds {
+			if p == pred {
+				idx = i
+				break
+			}
+		}
+		for _, ins := range succ.Instrs {
+			phi, ok := ins.(*ssa.Phi)
+			if !ok {
+				break
+			}
+			delete(ns, phi)
+			if idx >= 0 && idx < len(phi.Edges) {
+				if n := st.of(phi.Edges[idx]); n != 0 {
+					ns[phi] = n
+				}
+			}
+		}
+		reached[succ] = true
+		k := fmt.Sprintf("%d|%s", succ.Index, ns.key())
+		if seen[k] || len(seen) > 20000 {
+			if len(seen) > 20000 {
+				// give up precisely: everything reachable in the plain CFG counts as reachable
+				for b := range reachableFrom(succ, nil) {
+					reached[b] = true
+				}
+			}
+			return
+		}
+		seen[k] = true
+		if visit != nil {
+			visit(succ, ns)
+		}
+		work = append(work, item{succ, ns})
+	}
+	step := func(blk *ssa.BasicBlock, st nilState) {
+		if len(blk.Instrs) == 0 {
+			return
+		}
+		iff, ok := blk.Instrs[len(blk.Instrs)-1].(*ssa.If)
+		if !ok {
+			for _, s := range blk.Succs {
+				enter(s, blk, st)
+			}
+			return
+		}
+		cond := iff.Cond
+		neg := false
+		for {
+			if u, ok := cond.(*ssa.UnOp); ok && u.Op == token.NOT {
+				cond, neg = u.X, !neg
+				continue
+			}
+			break
+		}
+		if c, ok := cond.(*ssa.Const); ok && c.Value != nil {
+			t := (c.Value.String() == "true") != neg
+			if t {
+				enter(blk.Succs[0], blk, st)
+			} else {
+				enter(blk.Succs[1], blk, st)
+			}
+			return
+		}
+		if b, ok := cond.(*ssa.BinOp); ok && (b.Op == token.EQL || b.Op == token.NEQ) {
+			var x ssa.Value
+			if isNilConst(b.Y) {
+				x = b.X
+			} else if isNilConst(b.X) {
+				x = b.Y
+			}
+			if x != nil {
+				eq := (b.Op == token.EQL) != neg // true branch means "x is nil"?
+				switch st.of(x) {
+				case 1:
+					if eq {
+						enter(blk.Succs[0], blk, st)
+					} else {
+						enter(blk.Succs[1], blk, st)
+					}
+					return
+				case 2:
+					if eq {
+						enter(blk.Succs[1], blk, st)
+					} else {
+						enter(blk.Succs[0], blk, st)
+					}
+					return
+				}
+				with := func(n int8) nilState {
+					ns := nilState{}
+					for k, v := range st {
+						ns[k] = v
+					}
+					ns[x] = n
+					return ns
+				}
+				if eq {
+					enter(blk.Succs[0], blk, with(1))
+					enter(blk.Succs[1], blk, with(2))
+				} else {
+					enter(blk.Succs[0], blk, with(2))
+					enter(blk.Succs[1], blk, with(1))
+				}
+				return
+			}
+		}
+		for _, s := range blk.Succs {
+			enter(s, blk, st)
+		}
+	}
+	step(start.Block(), init)
+	for len(work) > 0 {
+		it := work[len(work)-1]
+		work = work[:len(work)-1]
+		step(it.blk, it.st)
+	}
+	return reached
+}
+
+// errResult: the value holding the error result of call c (the call itself, or the Extract of the error component
+// of its tuple); nil when the error is dropped.
+func errResult(c *ssa.Call) ssa.Value {
+	res := c.Call.Signature().Results()
+	if res.Len() == 1 {
+		if isErrorType(res.At(0).Type()) && c.Referrers() != nil && len(*c.Referrers()) > 0 {
+			return c
+		}
+		return nil
+	}
+	for i := 0; i < res.Len(); i++ {
+		if !isErrorType(res.At(i).Type()) {
+			continue
+		}
+		for _, r := range *c.Referrers() {
+			if ex, ok := r.(*ssa.Extract); ok && ex.Index == i {
+				return ex
+			}
+		}
+	}
+	return nil
 }
